@@ -58,7 +58,7 @@ def cmd_of(a, k):
 def t1(ctx, exe, names, page, cap=None):
     lines, scripts, mismatching = [], [], set()
     rnd = random.Random(ctx.seed + 49)
-    dumps = adtb.tlc_edges_many(ctx, MC, [('edges_' + n, edge_cfg(n)) for n in names])
+    dumps = adtb.tlc_edges_many(ctx, MC, [('edges_' + n, edge_cfg(n)) for n in names], workers=4 if ctx.thorough else 1)
     for name, (edges, r) in zip(names, dumps):
         m = re.search(r'Page = (\d+)', edge_cfg(name))
         k = page // int(m.group(1))          # bytes per model unit
@@ -139,14 +139,14 @@ def run(ctx):
     rnd1.shuffle(rest)
     # replays that equal TLC's edge are I-behaviours (and I => P was just checked); the trace specs get all replays that
     # differ plus a seeded sample of the others
-    keep = sorted(set(list(mismatching)[:3000]) | set(rest[:30000 if ctx.thorough else 2500]))
+    keep = sorted(set(list(mismatching)[:3000]) | set(rest[:30000 if ctx.thorough else 1500]))
     ctx.cov['edge_replays_validated_by_trace_spec'] = len(keep)
     lines = [lines[i] for i in keep]
     scripts = [scripts[i] for i in keep]
     n_t1 = len(lines)
     # 3. T2
     rnd = random.Random(ctx.seed * 7919 + 49)
-    nh, nops = (1500, 300) if ctx.thorough else (120, 200)
+    nh, nops = (600, 300) if ctx.thorough else (100, 160)
     t2s = [gen_history(rnd, nops, page) for _ in range(nh)]
     hs = adtb.run_histories(ctx, exe, t2s)
     lines += hs
